@@ -9,6 +9,8 @@ open Gql
 
 theorem sanitize_nil : sanitize [] = [] := by decide
 
+@[simp] theorem decLink_null : decLink .null = .ok () := rfl
+
 /-- the discriminator that goes with the `legacy` flag of the image -/
 def discOf (legacy : Bool) : Disc := if legacy then legacyDisc else repairedDisc
 
